@@ -795,6 +795,365 @@ fn c08_oracle(sc: &Scenario, ex: &Execution, info: &mut CaseInfo) -> Vec<Finding
     keep(note_stuck(&h, info), &["BlockedReceiver"])
 }
 
+
+// ---- C04 -----------------------------------------------------------------------------------
+
+fn values_strategy(_t: Tier) -> BoxedStrategy<Scenario> {
+    gen::traffic(
+        gen::qcfg(BOTH, FutMode::Mixed, prop_oneof![3 => Just(1u8), 3 => Just(2u8), 2 => Just(4u8)].boxed(), gen::wait_any()),
+        TrafficParams {
+            max_values: 10,
+            max_producers: 2,
+            w_send: 8,
+            w_try: 1,
+            w_sendk: 1,
+            w_clone_rx: 1,
+            leave: 2,
+            ..TrafficParams::default()
+        },
+        600,
+        conc_opts(),
+    )
+}
+
+fn c04_oracle(sc: &Scenario, ex: &Execution, info: &mut CaseInfo) -> Vec<Finding> {
+    let (wrap, _overlap) = conc_common(sc, ex, info);
+    let h = Hist::build(sc, ex);
+    info.class(format!("clone_or_view_suspended_while_others_ran={}", ex.ledger.suspended_obs.min(5)));
+    info.class(format!("max_consumers_per_stream={}", h.max_handles_on_a_stream().min(4)));
+    info.class(format!("streams={}", h.streams.len().min(4)));
+    info.count("clones", ex.ledger.clones);
+    info.count("views", ex.ledger.views);
+    info.count("observations_suspended", ex.ledger.suspended_obs);
+    info.nontrivial = ex.ledger.suspended_obs > 0 && wrap;
+    let _ = note_stuck(&h, info);
+    orc::payload_events(&h, &orc::C04_KINDS)
+}
+
+// ---- C06 -----------------------------------------------------------------------------------
+
+fn quiescence_strategy(_t: Tier) -> BoxedStrategy<Scenario> {
+    gen::quiescence_scenario(conc_opts())
+}
+
+fn c06_oracle(sc: &Scenario, ex: &Execution, info: &mut CaseInfo) -> Vec<Finding> {
+    let (wrap, overlap) = conc_common(sc, ex, info);
+    let h = Hist::build(sc, ex);
+    let probe_op = sc.progs[0].ops.len() as u32 - 1;
+    let probed = ex.calls.iter().any(|c| c.prog == 0 && c.op_idx == probe_op);
+    // transient refusals the sequential model would not have produced are allowed and only counted
+    info.class(format!("probe_ran={}", probed));
+    info.class(format!("streams_alive_at_probe={}", h.streams.values().filter(|s| s.handles.values().any(|x| x.1 == u64::MAX || x.1 > h.t_end / 2)).count().min(4)));
+    info.nontrivial = probed && overlap && wrap;
+    let _ = note_stuck(&h, info);
+    orc::quiescent(&h, probe_op)
+}
+
+// ---- C10 -----------------------------------------------------------------------------------
+
+fn addstream_strategy(_t: Tier) -> BoxedStrategy<Scenario> {
+    gen::addstream_plan().prop_map(|pl| gen::build_addstream(&pl, &conc_opts())).boxed()
+}
+
+fn c10_oracle(sc: &Scenario, ex: &Execution, info: &mut CaseInfo) -> Vec<Finding> {
+    let (wrap, _overlap) = conc_common(sc, ex, info);
+    let h = Hist::build(sc, ex);
+    // a send or a sibling receive overlapped some add_stream call made while other threads ran
+    let mut raced = false;
+    let mut concurrent_adds = 0;
+    for s in h.streams.values() {
+        if s.parent.is_none() {
+            continue;
+        }
+        let by_thread = ex.calls.iter().any(|c| c.kind == CallKind::AddStream && c.t0 == s.c0 && c.prog != 0);
+        if !by_thread {
+            continue;
+        }
+        concurrent_adds += 1;
+        let send_overlap = h.acc.values().any(|v| v.t0 < s.c1 && v.t1 > s.c0);
+        let sib = s
+            .parent
+            .and_then(|p| h.streams.get(&p))
+            .map(|ps| ps.deliveries.iter().any(|d| d.t0 < s.c1 && d.t1 > s.c0))
+            .unwrap_or(false);
+        if send_overlap || sib {
+            raced = true;
+        }
+    }
+    info.class(format!("add_stream_calls_during_traffic={}", concurrent_adds.min(3)));
+    info.class(format!("add_stream_raced_with_send_or_sibling={}", raced));
+    info.class(format!("parent_had_several_handles={}", h.streams.values().any(|s| s.parent_handles_at_call >= 2)));
+    info.class(format!("d8_trigger_present={}", h.addstream_raced_by_sibling()));
+    info.nontrivial = raced && wrap;
+    let mut f = orc::add_stream(&h, 0);
+    f.extend(orc::delivery(&h));
+    f.extend(orc::order(&h));
+    f.extend(orc::capacity(&h));
+    f.extend(note_stuck(&h, info));
+    f
+}
+
+// ---- C11 -----------------------------------------------------------------------------------
+
+fn removal_strategy(_t: Tier) -> BoxedStrategy<Scenario> {
+    gen::removal_scenario(conc_opts())
+}
+
+fn c11_oracle(sc: &Scenario, ex: &Execution, info: &mut CaseInfo) -> Vec<Finding> {
+    let (_wrap, overlap) = conc_common(sc, ex, info);
+    let h = Hist::build(sc, ex);
+    // a removal call overlapping a send attempt of another thread
+    let mut racing = 0;
+    let mut removed_streams = 0;
+    for c in &ex.calls {
+        if matches!(c.kind, CallKind::DropRx | CallKind::UnsubRx) && c.prog != 0 {
+            if ex.calls.iter().any(|o| o.kind.is_send() && o.prog != c.prog && o.t0 < c.t1 && c.t0 < o.t1) {
+                racing += 1;
+            }
+        }
+    }
+    for s in h.streams.values() {
+        if s.handles.values().all(|x| x.2 != u64::MAX) && s.ends.is_empty() {
+            removed_streams += 1;
+        }
+    }
+    let refused_then_ok = ex.stats.sends_full_then_ok;
+    info.class(format!("removal_calls_racing_with_sends={}", (racing as u64).min(4)));
+    info.class(format!("streams_removed_before_draining={}", (removed_streams as u64).min(3)));
+    info.class(format!("sends_refused_then_accepted={}", refused_then_ok.min(4)));
+    info.nontrivial = racing > 0 && overlap;
+    let mut f = keep(note_stuck(&h, info), &["SendRefusedForever", "ParkedSinkTask", "ParkedSinkNoReceiver", "SendNeverDisconnected"]);
+    f.extend(orc::unsubscribe_values(&h));
+    f.extend(orc::delivery(&h));
+    f.extend(orc::capacity(&h));
+    f
+}
+
+// ---- C14 -----------------------------------------------------------------------------------
+
+fn tasks_strategy(_t: Tier) -> BoxedStrategy<Scenario> {
+    gen::traffic(
+        gen::qcfg(BOTH, FutMode::Always, prop_oneof![Just(1u8), Just(2u8)].boxed(), gen::wait_any()),
+        TrafficParams {
+            max_values: 5,
+            max_producers: 2,
+            sink_tasks: true,
+            leave: 3,
+            w_clone_rx: 1,
+            ..TrafficParams::default()
+        },
+        500,
+        conc_opts(),
+    )
+}
+
+fn c14_oracle(sc: &Scenario, ex: &Execution, info: &mut CaseInfo) -> Vec<Finding> {
+    let (_wrap, overlap) = conc_common(sc, ex, info);
+    let h = Hist::build(sc, ex);
+    let parked = ex.stats.not_ready_poll + ex.stats.not_ready_send;
+    let direct = ex
+        .calls
+        .iter()
+        .any(|c| matches!(c.kind, CallKind::TryRecv | CallKind::Recv) && matches!(c.res, Res::Recv(RecvOut::Val(_))));
+    info.class(format!("tasks_that_got_NotReady={}", parked.min(5)));
+    info.class(format!("sink_NotReady={}", ex.stats.not_ready_send.min(3)));
+    info.class(format!("stream_NotReady={}", ex.stats.not_ready_poll.min(3)));
+    info.class(format!("values_taken_through_direct_methods={}", direct));
+    info.nontrivial = parked > 0 && overlap;
+    keep(
+        note_stuck(&h, info),
+        &["ParkedStreamTask", "ParkedSinkTask", "ParkedSinkNoReceiver"],
+    )
+}
+
+// ---- C16 -----------------------------------------------------------------------------------
+
+fn churn_opts() -> ExecOpts {
+    ExecOpts {
+        quarantine: true,
+        max_steps: 400_000,
+        ..ExecOpts::default()
+    }
+}
+
+fn churn_strategy(t: Tier) -> BoxedStrategy<Scenario> {
+    gen::churn_scenario(churn_opts(), if t == Tier::Quick { 30 } else { 60 })
+}
+
+fn c16_oracle(sc: &Scenario, ex: &Execution, info: &mut CaseInfo) -> Vec<Finding> {
+    let (_wrap, _overlap) = conc_common(sc, ex, info);
+    let h = Hist::build(sc, ex);
+    info.count("reclamation_batches", ex.outcome.reclaim_batches);
+    info.count("reclamation_batches_while_another_thread_was_inside_a_call", ex.outcome.reclaim_batches_concurrent);
+    info.count("deallocations", ex.outcome.frees);
+    info.count("allocations", ex.outcome.allocs);
+    info.class(format!("reclamation_batches={}", ex.outcome.reclaim_batches.min(4)));
+    info.class(format!("batches_concurrent_with_calls={}", ex.outcome.reclaim_batches_concurrent.min(4)));
+    info.nontrivial = ex.outcome.reclaim_batches_concurrent > 0;
+    let _ = note_stuck(&h, info);
+    let mut f = orc::memory_faults(&h);
+    f.extend(keep(orc::verdict_findings(&h, false), &["Panic"]));
+    f
+}
+
+// ---- C18 -----------------------------------------------------------------------------------
+
+fn probe_opts() -> ExecOpts {
+    ExecOpts {
+        probe_bound: 300,
+        ..ExecOpts::default()
+    }
+}
+
+fn probe_strategy(_t: Tier) -> BoxedStrategy<Scenario> {
+    gen::probe_scenario(probe_opts())
+}
+
+fn c18_oracle(sc: &Scenario, ex: &Execution, info: &mut CaseInfo) -> Vec<Finding> {
+    let (_wrap, _overlap) = conc_common(sc, ex, info);
+    let h = Hist::build(sc, ex);
+    info.count("probes", ex.stats.probes);
+    info.count("probes_with_a_thread_frozen_inside_a_call", ex.stats.probes_with_frozen_midcall);
+    info.max("max_steps_of_a_solo_try_operation", ex.stats.max_probe_steps);
+    info.class(format!("probes_with_frozen_midcall={}", ex.stats.probes_with_frozen_midcall.min(4)));
+    info.nontrivial = ex.stats.probes_with_frozen_midcall > 0;
+    let _ = note_stuck(&h, info);
+    keep(orc::verdict_findings(&h, false), &["CallDoesNotReturn", "CallBlocks"])
+}
+
+
+// ---- C17 -----------------------------------------------------------------------------------
+
+fn mem_opts(model: bool) -> ExecOpts {
+    let mut o = if model { seq_opts() } else { conc_opts() };
+    o.mem = true;
+    o
+}
+
+fn c17_seq_strategy(_t: Tier) -> BoxedStrategy<Scenario> {
+    gen::seq_scenario(gen::qcfg(BOTH, FutMode::Mixed, gen::cap_any(), gen::wait_any()), 120, false, mem_opts(true))
+}
+
+fn c17_conc_strategy(_t: Tier) -> BoxedStrategy<Scenario> {
+    gen::traffic(
+        gen::qcfg(BOTH, FutMode::Mixed, gen::cap_any(), gen::wait_any()),
+        TrafficParams {
+            max_values: 5,
+            leave: 4,
+            w_clone_rx: 2,
+            w_clone_tx: 2,
+            w_convert: 1,
+            ..TrafficParams::default()
+        },
+        300,
+        mem_opts(false),
+    )
+}
+
+/// one deferred-reclamation batch plus vector growth; far below the smallest per-cycle leak
+/// (8 bytes) times the number of cycles between the compared samples at the cycle counts used
+const CHURN_SLACK_BYTES: i64 = 4096;
+
+fn c17_teardown_findings(h: &Hist, info: &mut CaseInfo) -> Vec<Finding> {
+    let ex = h.ex;
+    let mut out = Vec::new();
+    if ex.mem.enabled && h.completed() {
+        let leaked = ex.mem.after.0 - ex.mem.before.0;
+        let blocks = ex.mem.after.1 - ex.mem.before.1;
+        info.max("max_leaked_bytes_at_teardown", leaked.max(0) as u64);
+        if leaked != 0 || blocks != 0 {
+            out.push(
+                Finding::new(
+                    "LeakAtTeardown",
+                    format!(
+                        "{} bytes in {} blocks allocated by the queue are still live after the last handle was dropped (block sizes {:?})",
+                        leaked, blocks, ex.mem.live_block_sizes
+                    ),
+                )
+                .fact("flavour", format!("{:?}", h.sc.q.flavour))
+                .fact("futures", h.sc.q.futures)
+                .fact("blocks", blocks),
+            );
+        }
+    }
+    out
+}
+
+fn c17_teardown_oracle(sc: &Scenario, ex: &Execution, info: &mut CaseInfo) -> Vec<Finding> {
+    cfg_classes(sc, info);
+    let h = Hist::build(sc, ex);
+    let streams_removed = h.streams.values().filter(|s| s.parent.is_some()).count();
+    let undelivered = h.streams.values().any(|s| s.deliveries.len() < h.acc.len());
+    info.class(format!("streams_added={}", streams_removed.min(4)));
+    info.class(format!("values_left_in_the_ring={}", undelivered));
+    info.nontrivial = h.completed() && streams_removed >= 1 && undelivered;
+    let _ = note_stuck(&h, info);
+    c17_teardown_findings(&h, info)
+}
+
+fn c17_churn_strategy(t: Tier) -> BoxedStrategy<Scenario> {
+    if t == Tier::Quick {
+        gen::mem_churn_scenario(mem_opts(false), &[100, 100, 100, 1000, 1000, 10_000])
+    } else {
+        gen::mem_churn_scenario(mem_opts(false), &[100, 1000, 1000, 10_000, 10_000, 100_000])
+    }
+}
+
+fn c17_churn_oracle(sc: &Scenario, ex: &Execution, info: &mut CaseInfo) -> Vec<Finding> {
+    cfg_classes(sc, info);
+    let h = Hist::build(sc, ex);
+    let samples = &ex.stats.mem_samples;
+    let cycles = samples.last().map(|s| s.0).unwrap_or(0);
+    info.class(format!("cycles={}", cycles));
+    info.class(format!("concurrent_traffic={}", sc.progs.len() > 1));
+    info.class(format!("reclamation_batches={}", ex.outcome.reclaim_batches.min(5)));
+    info.count("reclamation_batches", ex.outcome.reclaim_batches);
+    info.count("churn_cycles", cycles as u64);
+    info.nontrivial = h.completed() && samples.len() == 3 && ex.outcome.reclaim_batches >= 1;
+    let mut out = c17_teardown_findings(&h, info);
+    // a thread that is descheduled (or starved inside a retry loop) for most of the run does not
+    // "keep operating" and may legitimately hold reclamation back: such runs are inconclusive
+    let mut starved = false;
+    if samples.len() == 3 && sc.progs.len() > 1 {
+        let at = &ex.stats.calls_by_prog_at_sample;
+        let done = |k: usize| at.get(k).and_then(|v| v.get(1)).copied().unwrap_or(0);
+        let between = done(2).saturating_sub(done(1));
+        let cycles_between = (samples[2].0 - samples[1].0) as u64;
+        if between < cycles_between / 2 {
+            starved = true;
+        }
+    }
+    info.class(format!("traffic_thread_starved={}", starved));
+    if starved {
+        info.count("churn_runs_inconclusive_starved_thread", 1);
+        info.nontrivial = false;
+    }
+    if h.completed() && samples.len() == 3 && !starved {
+        let (c2, m2) = (samples[1].0 as i64, samples[1].1);
+        let (c4, m4) = (samples[2].0 as i64, samples[2].1);
+        let growth = m4 - m2;
+        info.max("max_growth_between_plateau_samples_bytes", growth.max(0) as u64);
+        if growth > CHURN_SLACK_BYTES {
+            out.push(
+                Finding::new(
+                    "MemoryGrowsWithChurn",
+                    format!(
+                        "memory held by the queue grew from {} bytes after {} cycles to {} bytes after {} cycles ({:.1} bytes per cycle) while a fixed set of handles stayed alive and kept operating",
+                        m2,
+                        c2,
+                        m4,
+                        c4,
+                        growth as f64 / (c4 - c2) as f64
+                    ),
+                )
+                .fact("flavour", format!("{:?}", sc.q.flavour))
+                .fact("futures", sc.q.futures),
+            );
+        }
+    }
+    out
+}
+
 // ---- registry ------------------------------------------------------------------------------
 
 fn cases(quick: u32, thorough: u32) -> impl Fn(Tier) -> u32 {
@@ -849,6 +1208,101 @@ pub fn registry() -> Vec<PropDef> {
                 oracle: c03_oracle,
             }],
             rule: "traffic profile with try_send bursts over requested capacities 0..9; oracle = counting bound per (accepted send, stream) plus no-loss; non-trivial = some send was refused and a later one accepted while a receive overlapped (the Full boundary was crossed under concurrency)",
+            assumptions: vec![SC_ASSUME, SAMPLE_ASSUME],
+        },
+        PropDef {
+            id: "C04",
+            parts: vec![Part {
+                name: "values",
+                source: Source::Random { strategy: values_strategy, cases: cases_fn!(2000, 40000) },
+                oracle: c04_oracle,
+            }],
+            rule: "traffic with N in {1,2,4}, 1-3 consumers per stream, shared, single-consumer and view receivers; the payload's Clone and every view closure contain a scheduling point (targeted by a dedicated schedule policy) so a clone/view can be suspended while producers wrap the ring; oracle = payload self-checks (well-formed, live in the ledger, unchanged) at the start and end of every clone/view and on every delivered value; non-trivial = some clone/view was suspended while other threads ran AND the ring wrapped",
+            assumptions: vec![SC_ASSUME, SAMPLE_ASSUME, "a payload write/read is one step for the scheduler: tearing inside one memcpy is not modelled"],
+        },
+        PropDef {
+            id: "C06",
+            parts: vec![Part {
+                name: "quiescence",
+                source: Source::Random { strategy: quiescence_strategy, cases: cases_fn!(2000, 40000) },
+                oracle: c06_oracle,
+            }],
+            rule: "threads perform a bounded number of non-blocking sends/receives/clones/conversions and stop without draining; after joining them the controller probes single-threaded: fill to Full, drain every stream, refill (exactly N must be accepted), drain again; compared with the model computed from the recorded history; non-trivial = the probe ran AND calls overlapped AND the ring wrapped",
+            assumptions: vec![SC_ASSUME, SAMPLE_ASSUME, MODEL_ASSUME],
+        },
+        PropDef {
+            id: "C10",
+            parts: vec![Part {
+                name: "addstream",
+                source: Source::Random { strategy: addstream_strategy, cases: cases_fn!(2000, 40000) },
+                oracle: c10_oracle,
+            }],
+            rule: "broadcast queues (plain and futures), N in {1,2,4}: a witness stream drained by its own thread gives the global order W; another thread calls add_stream on a parent stream (sole handle, or one of 2-3 handles with siblings receiving) while 1-2 producers wrap the ring, and the new stream is drained to the end; oracle = the new stream's sequence is a contiguous suffix W[P..] with P between the parent's position before and after the call, plus the delivery/order/capacity oracles on all streams; non-trivial = a send or sibling receive overlapped an add_stream call AND the ring wrapped",
+            assumptions: vec![SC_ASSUME, SAMPLE_ASSUME],
+        },
+        PropDef {
+            id: "C11",
+            parts: vec![Part {
+                name: "removal",
+                source: Source::Random { strategy: removal_strategy, cases: cases_fn!(2000, 40000) },
+                oracle: c11_oracle,
+            }],
+            rule: "a slow stream (or extra handles of the only stream) whose 1-3 handles are dropped/unsubscribed by 1-2 threads while producers retry on a full queue and other streams drain; oracle = no producer is refused forever once every remaining stream has < N outstanding values (scheduler stuck state), unsubscribe return values, no loss and capacity bound on the remaining streams; non-trivial = a removal call overlapped a send attempt of another thread",
+            assumptions: vec![SC_ASSUME, SAMPLE_ASSUME],
+        },
+        PropDef {
+            id: "C14",
+            parts: vec![
+                Part {
+                    name: "tasks",
+                    source: Source::Random { strategy: tasks_strategy, cases: cases_fn!(2000, 40000) },
+                    oracle: c14_oracle,
+                },
+                c14_seq_part(),
+            ],
+            rule: "futures queues, N in {1,2}: Sink and Stream tasks on a deterministic executor (a NotReady task is blocked until Notify::notify), other threads draining through the direct methods or dropping handles; oracle = scheduler stuck state with a parked task that could make progress; sequential part: after every call that makes progress possible for a parked task the task must have been notified; non-trivial (tasks) = some task got NotReady and calls overlapped; (sequential) = some task parked",
+            assumptions: vec![SC_ASSUME, SAMPLE_ASSUME],
+        },
+        PropDef {
+            id: "C16",
+            parts: vec![Part {
+                name: "churn",
+                source: Source::Random { strategy: churn_strategy, cases: cases_fn!(400, 6000) },
+                oracle: c16_oracle,
+            }],
+            rule: "N in {1,2}: writers on the Full boundary, 1-3 threads doing 4-60 rounds of add_stream/drop, clone/drop, unsubscribe, single<->multi conversion, idle handles that never operate; every block freed through the crate's allocator shim is quarantined and every instrumented access or dereference is checked against the freed ranges; non-trivial = at least one deferred-reclamation batch was freed while another thread was inside an API call",
+            assumptions: vec![SC_ASSUME, SAMPLE_ASSUME, "quarantined addresses are never reused, so ABA on recycled addresses is not exercised", "only memory allocated through src/alloc.rs is tracked"],
+        },
+        PropDef {
+            id: "C17",
+            parts: vec![
+                Part {
+                    name: "teardown_seq",
+                    source: Source::Random { strategy: c17_seq_strategy, cases: cases_fn!(2000, 30000) },
+                    oracle: c17_teardown_oracle,
+                },
+                Part {
+                    name: "teardown_concurrent",
+                    source: Source::Random { strategy: c17_conc_strategy, cases: cases_fn!(1000, 15000) },
+                    oracle: c17_teardown_oracle,
+                },
+                Part {
+                    name: "churn",
+                    source: Source::RandomCostly { strategy: c17_churn_strategy, cases: cases_fn!(12, 40) },
+                    oracle: c17_churn_oracle,
+                },
+            ],
+            rule: "a counting global allocator attributes to the queue every block allocated while a thread is inside a call into the crate (harness allocations excluded by scope) and tracks it until freed. Teardown: sequential histories and concurrent traffic over capacities 0..9 ending in generated teardown orders; the bytes live after the last handle is dropped must equal the bytes live before the queue was created. Churn: 4c cycles (c in 100..10^4 quick, ..10^5 thorough) of a generated mix of add_stream/drop, clone/drop, single<->multi conversions while the long-lived handles send and receive every cycle, optionally with a concurrent traffic thread and an earlier drop of a non-last handle; live bytes after 4c cycles may exceed those after 2c cycles by at most 4096 bytes; non-trivial (teardown) = a stream was added and values were left in the ring; (churn) = all three samples taken and at least one reclamation batch ran",
+            assumptions: vec![SAMPLE_ASSUME, "memory allocated by the crate outside API calls (there is none: the crate has no background threads) would not be attributed"],
+        },
+        PropDef {
+            id: "C18",
+            parts: vec![Part {
+                name: "probes",
+                source: Source::Random { strategy: probe_strategy, cases: cases_fn!(2000, 40000) },
+                oracle: c18_oracle,
+            }],
+            rule: "traffic on busy/yielding queues; at generated points one thread freezes all others wherever they are and runs a single try_send / try_recv / try_recv_view alone; oracle = the call returns within 300 of its own scheduling points and never blocks; non-trivial = the probe ran while another thread was frozen strictly inside an API call",
             assumptions: vec![SC_ASSUME, SAMPLE_ASSUME],
         },
         PropDef {
